@@ -119,7 +119,7 @@ def run_rec_property(res, fn, props_module, theorems, spec_fns=None, extra_fns=(
     res.cov["distribution"] = dist
     res.cov["samples"] = ["theorem " + t for t in theorems[:2]] + samples
     res.cov["rule"] = ("corr-rec: structured generators of /verif/go/cmd/harness/rec.go (bases x single-position substitutions by all 256 bytes, "
-                       "position pairs over a class alphabet, all lengths, case renderings, random) + corpus; each input evaluated by the real Go function "
+                       "position pairs over a class alphabet, all lengths, valid inputs followed by 256·k / 65536·k more bytes, case renderings, random) + corpus; each input evaluated by the real Go function "
                        "in-process (recover), by the compiled Lean model (modeldrv) and by the Spec decider (specdrv); distinct by input bytes (de-duplicated by the generator); "
                        "non-trivial = passes the recognizer's first gate (length/prefix) or is a corpus case")
     res.cov["model_vs_impl_disagreements"] = len(disagreements_model)
